@@ -13,7 +13,7 @@ import (
 func init() { register("C01", propC01) }
 
 func propC01(r *Report, tier string) {
-	r.Explanation = "Structural necessary conditions of last-write-wins contents: (a) the scorch segment introducer builds each carried-over segment's exclusion bitmap from its previous exclusion bitmap AND the batch ids looked up in that segment (optimistic map or recomputed on a miss), unconditionally; (b) every reader-side use of a raw segment's doc sets subtracts the exclusion bitmap (K8 call-site argument rule); (c) the new root's internal map = copy of old overridden by the batch ops with nil => delete; (d) one root swap per batch publishing the freshly built snapshot, populated before the swap; (e) upsidedown: back-index lookups and KV writes happen under the write mutex and the cached doc count changes only on the appeared/disappeared branches; (f) every stored-field type tag written by document.*Field.EncodedFieldType is decoded by both engines' Document(); (g) every id of a batch (updates and deletes) is forwarded to the obsoletion lookup."
+	r.Explanation = "Structural necessary conditions of last-write-wins contents: (a) the scorch segment introducer builds each carried-over segment's exclusion bitmap from its previous exclusion bitmap AND the batch ids looked up in that segment (optimistic map or recomputed on a miss), unconditionally; (b) every reader-side use of a raw segment's doc sets subtracts the exclusion bitmap (K8 call-site argument rule); (c) the new root's internal map = copy of old overridden by the batch ops with nil => delete; (d) one root swap per batch publishing the freshly built snapshot, populated before the swap; (e) upsidedown: back-index lookups and KV writes happen under the write mutex and the cached doc count changes only on the appeared/disappeared branches; (f) every stored-field type tag written by document.*Field.EncodedFieldType is decoded by both engines' Document(); (g) every id of a batch (updates and deletes) is forwarded to the obsoletion lookup; (h) both engines' Batch acknowledge a batch only on paths that consumed both op maps (documents and internal keys) or know the skipped one to be empty."
 	r.NotCovered = "that DocNumbers/postings inside zapx are right; equality of stored field contents; equivalence across batch partitions; upsidedown row-diff arithmetic; KV store behaviour"
 	in := findIntroducers(r.P)
 	ruleSegmentIntroducerObsoletes(r, in)
@@ -31,6 +31,7 @@ func propC01(r *Report, tier string) {
 	ruleMergeUsingAlignment(r, "K14-merge-input-alignment")
 	ruleFlushableAlignment(r, "K14-merge-input-alignment")
 	ruleParallelSlicesResetTogether(r, "K14-parallel-slices-reset-together", "index/scorch", "index/upsidedown")
+	ruleBatchConsumesAllOps(r, "K13-batch-consumes-all-ops")
 	r.Floor("K5dep-obsoletes-union", 3)
 	r.Floor("K8-exclusion-at-read-sites", 6)
 	r.Floor("K5-upsidedown-count", 4)
@@ -631,6 +632,58 @@ func ruleStoredTypeTags(r *Report) {
 			}
 			return true
 		})
+		// table-driven spelling: a map literal keyed by the tag byte, indexed with the tag
+		ast.Inspect(fi.Decl.Body, func(n ast.Node) bool {
+			ix, ok := n.(*ast.IndexExpr)
+			if !ok {
+				return true
+			}
+			mt, isMap := info.TypeOf(ix.X).Underlying().(*types.Map)
+			if !isMap || mt.Key().String() != "byte" {
+				return true
+			}
+			holder := objOf(info, ix.X)
+			if holder == nil {
+				return true
+			}
+			var lit *ast.CompositeLit
+			find := func(m ast.Node) bool {
+				switch y := m.(type) {
+				case *ast.ValueSpec:
+					for i, nm := range y.Names {
+						if info.Defs[nm] == holder && i < len(y.Values) {
+							lit, _ = ast.Unparen(y.Values[i]).(*ast.CompositeLit)
+						}
+					}
+				case *ast.AssignStmt:
+					if len(y.Lhs) == 1 && len(y.Rhs) == 1 && objOf(info, y.Lhs[0]) == holder {
+						lit, _ = ast.Unparen(y.Rhs[0]).(*ast.CompositeLit)
+					}
+				}
+				return true
+			}
+			ast.Inspect(fi.Decl.Body, find)
+			for _, file := range fi.Pkg.Syntax {
+				for _, d := range file.Decls {
+					if gd, ok := d.(*ast.GenDecl); ok && gd.Tok == token.VAR {
+						ast.Inspect(gd, find)
+					}
+				}
+			}
+			if lit == nil {
+				return true
+			}
+			for _, el := range lit.Elts {
+				if kv, ok := el.(*ast.KeyValueExpr); ok {
+					if tv, ok := info.Types[kv.Key]; ok && tv.Value != nil {
+						if x, ok := constant.Int64Val(tv.Value); ok {
+							out[string(rune(x))] = true
+						}
+					}
+				}
+			}
+			return true
+		})
 		return out
 	}
 	scorchTags := caseTags("index/scorch.(*IndexSnapshot).Document", "typ")
@@ -719,4 +772,98 @@ func ruleUpsidedownDeleteKeys(r *Report, rule string) {
 		return true
 	})
 	r.Ob(rule, fi.Name+"/back-index-row-deleted", fi.Decl.Pos(), okSelf, "the back-index row of the document is deleted together with the rows it lists")
+}
+
+// ruleBatchConsumesAllOps (K13): a batch carries two op maps - document ops and
+// internal key/value ops.  An index's Batch method acknowledges the batch by
+// returning without error; every path to such a return must have gone through
+// a use of BOTH maps (ranging over it, or handing it to the code that applies
+// it), unless the path's own conditions say that the map is empty.  A fast
+// path that tests only one of the maps ("nothing to index") silently drops
+// the other kind of operation.
+func ruleBatchConsumesAllOps(r *Report, rule string) {
+	p := r.P
+	n := 0
+	for _, name := range []string{"index/upsidedown.(*UpsideDownCouch).Batch", "index/scorch.(*Scorch).Batch"} {
+		fi := p.MustFunc(name)
+		r.Fn(fi)
+		info := fi.Pkg.TypesInfo
+		sig := fi.Obj.Type().(*types.Signature)
+		var batch types.Object
+		for i := 0; i < sig.Params().Len(); i++ {
+			if nt := namedOf(sig.Params().At(i).Type()); nt != nil && nt.Obj().Name() == "Batch" {
+				batch = sig.Params().At(i)
+			}
+		}
+		if batch == nil {
+			undecidedf("%s: no *index.Batch parameter", fi.Name)
+		}
+		g := buildCFG(info, fi.Decl.Body)
+		for _, fld := range []string{"IndexOps", "InternalOps"} {
+			// consuming uses: batch.<fld> anywhere except as the operand of len()
+			var uses []ast.Node
+			inLen := map[ast.Node]bool{}
+			ast.Inspect(fi.Decl.Body, func(x ast.Node) bool {
+				if c, ok := x.(*ast.CallExpr); ok && calleeBuiltin(info, c) == "len" && len(c.Args) == 1 {
+					inLen[ast.Unparen(c.Args[0])] = true
+				}
+				return true
+			})
+			ast.Inspect(fi.Decl.Body, func(x ast.Node) bool {
+				if _, isLit := x.(*ast.FuncLit); isLit {
+					return false
+				}
+				if sel, ok := x.(*ast.SelectorExpr); ok && !inLen[sel] && objOf(info, sel.X) == batch && isField(info, sel, "Batch", fld) {
+					uses = append(uses, sel)
+				}
+				return true
+			})
+			if len(uses) == 0 {
+				r.Ob(rule, fi.Name+"/"+fld+"/consumed", fi.Decl.Pos(), false, "Batch never reads batch."+fld)
+				continue
+			}
+			k := 0
+			ast.Inspect(fi.Decl.Body, func(x ast.Node) bool {
+				if _, isLit := x.(*ast.FuncLit); isLit {
+					return false
+				}
+				rs, ok := x.(*ast.ReturnStmt)
+				if !ok || !successReturn(info, g, fi, rs) {
+					return true
+				}
+				if !g.entryReachesAvoiding(rs, uses) {
+					return true
+				}
+				// acknowledged without having looked at the ops: only fine when known to be empty
+				empty := factMatch(g.GuardsOf(rs), func(fc Fact) bool {
+					be, isB := ast.Unparen(fc.Expr).(*ast.BinaryExpr)
+					if !isB || fc.Tag != nil {
+						return false
+					}
+					c, isCall := ast.Unparen(be.X).(*ast.CallExpr)
+					if !isCall || calleeBuiltin(info, c) != "len" || len(c.Args) != 1 {
+						return false
+					}
+					sel, isSel := ast.Unparen(c.Args[0]).(*ast.SelectorExpr)
+					if !isSel || objOf(info, sel.X) != batch || !isField(info, sel, "Batch", fld) {
+						return false
+					}
+					tv, has := info.Types[be.Y]
+					if !has || tv.Value == nil || constant.Sign(tv.Value) != 0 {
+						return false
+					}
+					return (be.Op == token.EQL && fc.Truth) || ((be.Op == token.NEQ || be.Op == token.GTR) && !fc.Truth)
+				})
+				n++
+				r.Ob(rule, fmt.Sprintf("%s/%s/ack#%d-after-consuming", fi.Name, fld, k), rs.Pos(), empty, "the batch is acknowledged here on a path that never looked at batch."+fld+" and is not known to be empty: operations of that kind are dropped")
+				k++
+				return true
+			})
+			n++
+			r.Ob(rule, fi.Name+"/"+fld+"/consumed", uses[0].Pos(), true, "batch."+fld+" is consumed on the way to every acknowledgement")
+		}
+	}
+	if n < 4 {
+		undecidedf("Batch methods not recognised")
+	}
 }
